@@ -757,7 +757,7 @@ func (hs *clientHandshakeState) readFinished(out []byte) error {
 				c.retransmitTimer.backoff()
 				// 重传缓存的 Flight 5 原始字节
 				if len(hs.flightData) > 0 {
-					if _, writeErr := c.pconn.WriteTo(hs.flightData, c.remoteAddr); writeErr != nil {
+					if _, writeErr := c.writeFlight(hs.flightData); writeErr != nil {
 						return writeErr
 					}
 				}
@@ -773,7 +773,7 @@ func (hs *clientHandshakeState) readFinished(out []byte) error {
 			if netErr, ok := err.(net.Error); ok && netErr.Timeout() {
 				c.retransmitTimer.backoff()
 				if len(hs.flightData) > 0 {
-					if _, writeErr := c.pconn.WriteTo(hs.flightData, c.remoteAddr); writeErr != nil {
+					if _, writeErr := c.writeFlight(hs.flightData); writeErr != nil {
 						return writeErr
 					}
 				}
